@@ -148,6 +148,7 @@ def judge_cons(o, vmode, res):
 def judge_hist(s, ev, res):
     buf = s.h._buffer
     before = place.whole(buf)
+    n0 = len(buf.log)
     try:
         with common.Watchdog(30):
             hist.apply_event(s, ev)
@@ -156,6 +157,13 @@ def judge_hist(s, ev, res):
         return [], False
     after = place.whole(buf)
     regions = allowed_regions(buf.log)
+    if ev[0] in ("set", "setc") and not any(q in ("*", "#") for q in ev[2]) and s.t[0] != "U":
+        # the element is not reached through a reference: only the object's own extent and what this very assignment
+        # allocated may change (a referent bound BEFORE, e.g. the old target of a reference that is being rebound, may not)
+        try:
+            regions = [(int(s.h._offset), int(s.h._offset) + hand.size_of(s.h))] + allowed_regions(buf.log[n0:])
+        except Exception:
+            pass
     bad = outside(before, after, regions)
     res.oracles["confinement"] += 1
     if bad:
